@@ -3,6 +3,12 @@
 stamps (enter, exit) on CLOCK_MONOTONIC in shared memory; afterwards no two calls may overlap.
 
 usage (stdio must be a tty):  c14_mp.py <fork|spawn|forkserver> <default|ctx> <lazy 0|1> <scale> <out.json>
+                                        [target|run|runsuper|after] [pre 0|1]
+
+* style `target`: children are `Process(target=…)`; `run`: a Process SUBCLASS overriding run() without
+  calling super().run() (the classic way of subclassing); `runsuper`: run() calls super().run() first;
+* pre=1: before term_image is imported, `BaseProcess.start` / `run` / `_bootstrap` are instrumented
+  with transparent `functools.wraps` wrappers (what a tracing / crash-reporting helper would do);
 
 * `default`: `multiprocessing.set_start_method(m)` + `multiprocessing.Process`;
   `ctx`: `multiprocessing.get_context(m).Process` (what Pool / ProcessPoolExecutor use);
@@ -24,10 +30,61 @@ sys.path.insert(0, os.environ.get("VERIF_REPO", "/repo") + "/src")
 import multiprocessing as mp  # noqa: E402
 
 LAZY = len(sys.argv) > 3 and sys.argv[3] == "1"
+STYLE = sys.argv[6] if len(sys.argv) > 6 else "target"
+PRE = len(sys.argv) > 7 and sys.argv[7] == "1"
+
+if PRE:
+    import functools
+    from multiprocessing.process import BaseProcess as _BP
+
+    def _instrument(name):
+        orig = getattr(_BP, name)
+
+        @functools.wraps(orig)
+        def wrapper(self, *a, **k):
+            return orig(self, *a, **k)
+
+        setattr(_BP, name, wrapper)
+
+    for _n in ("start", "run", "_bootstrap"):
+        _instrument(_n)
+
+
+def _make_sub(base, name):
+    def __init__(self, *a):
+        base.__init__(self)
+        self._a = a
+
+    def run(self):
+        if STYLE == "runsuper":
+            base.run(self)
+        child(*self._a)
+
+    cls = type(name, (base,), {"__init__": __init__, "run": run, "__module__": __name__, "__qualname__": name})
+    globals()[name] = cls
+    return cls
+
+
+SUBS = {"default": _make_sub(mp.Process, "Sub_default")}
+for _m in ("fork", "spawn", "forkserver"):
+    SUBS[_m] = _make_sub(mp.get_context(_m).Process, "Sub_" + _m)
+
+
+def make_process(P, args):
+    """a child running `child(*args)`: by target, or by an overridden run()"""
+    if STYLE in ("target", "after"):
+        return P(target=child, args=args)
+    for key, cls in SUBS.items():
+        if cls.__mro__[1] is P:
+            return cls(*args)
+    raise RuntimeError(f"no subclass for {P}")
+
+
 if not LAZY:
     import term_image.utils as _U  # noqa: F401
 
 SLEEP = 0.004
+ERRORS = []
 _synced = None
 
 
@@ -43,12 +100,15 @@ def get_synced():
             return 1
 
         @U.lock_tty
-        def outer(nest):
-            e = time.monotonic()
-            time.sleep(SLEEP)
-            n = inner() if nest else 0
-            x = time.monotonic()
-            return e, x, n
+        def outer(nest, arr, i):
+            # the stamps are written from inside the call, so that they survive an exception raised
+            # by the lock's own release afterwards
+            arr[i] = time.monotonic()
+            try:
+                time.sleep(SLEEP)
+                arr[i + 2] = inner() if nest else 0
+            finally:
+                arr[i + 1] = time.monotonic()
 
         _synced = outer
     return _synced
@@ -57,10 +117,18 @@ def get_synced():
 def loop(arr, slot, n):
     f = get_synced()
     for k in range(n):
-        e, x, nn = f(k % 3 == 0)
-        i = 3 * (slot * n + k)
-        arr[i], arr[i + 1], arr[i + 2] = e, x, nn
+        try:
+            f(k % 3 == 0 and STYLE != "after", arr, 3 * (slot * n + k))
+        except Exception as e:  # noqa: BLE001  (e.g. the lock's own bookkeeping failing)
+            ERRORS.append(f"{type(e).__name__}: {e}")
+            if STYLE == "after":
+                return   # a confused lock: this party stops (its stamps so far stay)
         time.sleep(0.0005)
+
+
+def child_after(arr, slot, n):
+    """style `after`: the child is one contender (no threads of its own)"""
+    loop(arr, slot, n)
 
 
 def child(arr, slot, n, how, method, grand):
@@ -77,21 +145,28 @@ def child(arr, slot, n, how, method, grand):
             P = mp.get_context("spawn").Process
         else:
             P = mp.get_context(method).Process if how == "ctx" else mp.Process
-        g = P(target=child, args=(arr, slot + 2, n, how, method, False))
+        g = make_process(P, (arr, slot + 2, n, how, method, False))
         g.start()
     for t in ths:
-        t.join()
+        t.join(12)
     if g:
-        g.join(60)
+        g.join(10)
+        if g.is_alive():
+            g.terminate()
 
 
 def main():
     method, how, scale, out = sys.argv[1], sys.argv[2], int(sys.argv[4]), sys.argv[5]
+    import signal
     import term_image.utils as U
 
     n = 8 * scale
-    nchild = 2
-    nslots = 3 + 2 * nchild + 2  # parent threads, 2 per child, grandchild's 2
+    # style `after`: ONE child is started while nothing else runs, and only then the parent's threads
+    # and the child contend (no call races with the start; the child is given as target=)
+    after = STYLE == "after"
+    nchild = 1 if after else 2
+    nslots = 3 + 2 * 2 + 2  # parent threads, 2 per child, grandchild's 2
+    # (style `after`: slot 0-1 main thread, 1-2 … see below; every party writes into its own range)
     if method == "mixed":
         # first child: default context (fork on Linux) with a spawned grandchild;
         # second child: forkserver context — all must end up on one lock
@@ -105,41 +180,74 @@ def main():
         ctx = mp.get_context()
         P = mp.Process
     arr = ctx.Array("d", 3 * n * nslots, lock=False)
-    # parent threads start calling before any process is started
-    pth = [threading.Thread(target=loop, args=(arr, j, n)) for j in range(3)]
-    for t in pth:
-        t.start()
-    time.sleep(SLEEP * 2)
+    procs = []
+    stuck = []
+
+    def finish(*_):
+        """evaluate the stamps written so far and leave (also the watchdog's way out of a deadlock)"""
+        iv = []
+        nested = 0
+        for i in range(n * nslots):
+            e, x, nn = arr[3 * i], arr[3 * i + 1], arr[3 * i + 2]
+            if x > 0:
+                iv.append((e, x, i // n))
+                nested += int(nn)
+        iv.sort()
+        overlaps, first, end, who = 0, None, -1.0, None
+        for e, x, s in iv:
+            if e < end:
+                overlaps += 1
+                if first is None:
+                    first = f"slot {s} entered {1000 * (end - e):.2f} ms before slot {who} left"
+            if x > end:
+                end, who = x, s
+        expected = n * (6 if after else 3 + 2 * nchild + 2)
+        json.dump({"method": method, "how": how, "lazy": LAZY, "style": STYLE, "pre": PRE, "intervals": len(iv),
+                   "expected": expected, "overlaps": overlaps, "first": first, "nested": nested,
+                   "processes": 1 + nchild + (0 if after else 1),
+                   "lock_type": type(U._tty_lock).__module__ + "." + type(U._tty_lock).__name__,
+                   "exitcodes": [p.exitcode for p in procs], "errors": ERRORS[:5],
+                   "stuck": stuck + (["watchdog"] if _ else [])}, open(out, "w"))
+        for p in procs:
+            if p.is_alive():
+                p.terminate()
+        os._exit(0)
+
+    signal.signal(signal.SIGALRM, finish)
+    signal.alarm(25 * scale)
+    pth = [threading.Thread(target=loop, args=(arr, j, n), daemon=True) for j in range(3)]
+    if not after:
+        # parent threads start calling before any process is started
+        for t in pth:
+            t.start()
+        time.sleep(SLEEP * 2)
     Ps = [mp.Process, mp.get_context("forkserver").Process] if method == "mixed" else [P, P]
-    procs = [Ps[c](target=child, args=(arr, 3 + 2 * c + (2 if c > 0 else 0), n, how, method, c == 0)) for c in range(nchild)]
+    if after:
+        # an empty child first (the very first start: the lock is migrated), then the contender
+        first = Ps[0](target=time.sleep, args=(0,))
+        first.start()
+        first.join(10)
+        procs.append(Ps[0](target=child_after, args=(arr, 3, 2 * n)))
+    else:
+        procs += [make_process(Ps[c], (arr, 3 + 2 * c + (2 if c > 0 else 0), n, how, method, c == 0)) for c in range(nchild)]
     # slots: child0 -> 3,4 ; grandchild -> 5,6 ; child1 -> 7,8
     for p in procs:
         p.start()
         time.sleep(SLEEP)
+    if after:
+        # phase 1: the main thread against the child; phase 2: two threads of the parent
+        loop(arr, 0, 2 * n)
+        pth = [threading.Thread(target=loop, args=(arr, j, n), daemon=True) for j in (2, 3)]
+        for t in pth:
+            t.start()
     for t in pth:
-        t.join()
+        t.join(15)
+    stuck += [t.name for t in pth if t.is_alive()]
     for p in procs:
-        p.join(90)
-    iv = []
-    nested = 0
-    for i in range(n * nslots):
-        e, x, nn = arr[3 * i], arr[3 * i + 1], arr[3 * i + 2]
-        if x > 0:
-            iv.append((e, x, i // n))
-            nested += int(nn)
-    iv.sort()
-    overlaps, first, end, who = 0, None, -1.0, None
-    for e, x, s in iv:
-        if e < end:
-            overlaps += 1
-            if first is None:
-                first = f"slot {s} entered {1000 * (end - e):.2f} ms before slot {who} left"
-        if x > end:
-            end, who = x, s
-    json.dump({"method": method, "how": how, "lazy": LAZY, "intervals": len(iv), "expected": n * nslots,
-               "overlaps": overlaps, "first": first, "nested": nested, "processes": 1 + nchild + 1,
-               "lock_type": type(U._tty_lock).__module__ + "." + type(U._tty_lock).__name__,
-               "exitcodes": [p.exitcode for p in procs]}, open(out, "w"))
+        p.join(15)
+        if p.is_alive():
+            stuck.append(p.name)
+    finish()
 
 
 if __name__ == "__main__":
